@@ -5,7 +5,9 @@ import (
 	"go/token"
 	"go/types"
 	"math/big"
+	"net/http"
 	"net/textproto"
+	"net/url"
 	"sort"
 	"strconv"
 	"strings"
@@ -1464,5 +1466,271 @@ func (ex *Exec) describeCell(p *value) string {
 func (ex *Exec) remarkShared() {
 	if len(ex.sharedRoots) > 0 {
 		ex.markShared(ex.sharedRoots)
+	}
+}
+
+// ---------- native models for net/url on concrete values ----------
+
+func (ex *Exec) strField(s structure, st *types.Struct, name string) string {
+	for i := 0; i < st.NumFields(); i++ {
+		if st.Field(i).Name() == name {
+			t, ok := s[i].(*Term)
+			if !ok || !t.IsConst() {
+				panic(unsupported{"symbolic url field " + name})
+			}
+			return t.s
+		}
+	}
+	panic(unsupported{"no field " + name})
+}
+
+func (ex *Exec) fieldIndex(st *types.Struct, name string) int {
+	for i := 0; i < st.NumFields(); i++ {
+		if st.Field(i).Name() == name {
+			return i
+		}
+	}
+	return -1
+}
+
+func (ex *Exec) boolField(s structure, st *types.Struct, name string) bool {
+	i := ex.fieldIndex(st, name)
+	t, ok := s[i].(*Term)
+	if !ok || !t.IsConst() {
+		panic(unsupported{"symbolic url field " + name})
+	}
+	return t.BoolVal()
+}
+
+// urlToGo converts an engine *url.URL (pointer to struct cell) into a Go url.URL.
+func (ex *Exec) urlToGo(p *value, t types.Type) *url.URL {
+	if p == nil {
+		ex.runtimePanic("nil *url.URL")
+	}
+	s := (*p).(structure)
+	st := t.Underlying().(*types.Struct)
+	u := &url.URL{
+		Scheme: ex.strField(s, st, "Scheme"), Opaque: ex.strField(s, st, "Opaque"), Host: ex.strField(s, st, "Host"),
+		Path: ex.strField(s, st, "Path"), RawPath: ex.strField(s, st, "RawPath"), RawQuery: ex.strField(s, st, "RawQuery"),
+		Fragment: ex.strField(s, st, "Fragment"), RawFragment: ex.strField(s, st, "RawFragment"),
+		OmitHost: ex.boolField(s, st, "OmitHost"), ForceQuery: ex.boolField(s, st, "ForceQuery"),
+	}
+	ui := ex.fieldIndex(st, "User")
+	if up, ok := s[ui].(*value); ok && up != nil {
+		us := (*up).(structure)
+		ust := st.Field(ui).Type().(*types.Pointer).Elem().Underlying().(*types.Struct)
+		name := ex.strField(us, ust, "username")
+		if ex.boolField(us, ust, "passwordSet") {
+			u.User = url.UserPassword(name, ex.strField(us, ust, "password"))
+		} else {
+			u.User = url.User(name)
+		}
+	}
+	return u
+}
+
+// urlFromGo builds an engine url.URL struct cell from a Go url.URL.
+func (ex *Exec) urlFromGo(u *url.URL, t types.Type) *value {
+	st := t.Underlying().(*types.Struct)
+	s := ex.zero(t).(structure)
+	set := func(name string, v value) { s[ex.fieldIndex(st, name)] = v }
+	tc := ex.tc
+	set("Scheme", tc.StrConst(u.Scheme))
+	set("Opaque", tc.StrConst(u.Opaque))
+	set("Host", tc.StrConst(u.Host))
+	set("Path", tc.StrConst(u.Path))
+	set("RawPath", tc.StrConst(u.RawPath))
+	set("RawQuery", tc.StrConst(u.RawQuery))
+	set("Fragment", tc.StrConst(u.Fragment))
+	set("RawFragment", tc.StrConst(u.RawFragment))
+	set("OmitHost", tc.Bool(u.OmitHost))
+	set("ForceQuery", tc.Bool(u.ForceQuery))
+	if u.User != nil {
+		ui := ex.fieldIndex(st, "User")
+		ut := st.Field(ui).Type().(*types.Pointer).Elem()
+		ust := ut.Underlying().(*types.Struct)
+		us := ex.zero(ut).(structure)
+		pw, has := u.User.Password()
+		us[ex.fieldIndex(ust, "username")] = tc.StrConst(u.User.Username())
+		us[ex.fieldIndex(ust, "password")] = tc.StrConst(pw)
+		us[ex.fieldIndex(ust, "passwordSet")] = tc.Bool(has)
+		c := new(value)
+		*c = us
+		set("User", c)
+	}
+	c := new(value)
+	*c = s
+	return c
+}
+
+func init() {
+	m := models
+	m["(*net/url.URL).String"] = func(ex *Exec, c *frame, fn *ssa.Function, a []value) value {
+		t := fn.Signature.Recv().Type().(*types.Pointer).Elem()
+		return ex.tc.StrConst(ex.urlToGo(a[0].(*value), t).String())
+	}
+	m["(*net/url.URL).RequestURI"] = func(ex *Exec, c *frame, fn *ssa.Function, a []value) value {
+		t := fn.Signature.Recv().Type().(*types.Pointer).Elem()
+		return ex.tc.StrConst(ex.urlToGo(a[0].(*value), t).RequestURI())
+	}
+	parse := func(f func(string) (*url.URL, error)) modelFn {
+		return func(ex *Exec, c *frame, fn *ssa.Function, a []value) value {
+			s := ex.constStr(a[0], "url string")
+			u, err := f(s)
+			pt := fn.Signature.Results().At(0).Type().(*types.Pointer)
+			if err != nil {
+				return tuple{(*value)(nil), ex.newErrorValue(err.Error())}
+			}
+			return tuple{ex.urlFromGo(u, pt.Elem()), iface{}}
+		}
+	}
+	m["net/url.Parse"] = parse(url.Parse)
+	m["net/url.ParseRequestURI"] = parse(url.ParseRequestURI)
+	m["strconv.FormatUint"] = func(ex *Exec, c *frame, fn *ssa.Function, a []value) value {
+		t, b := a[0].(*Term), a[1].(*Term)
+		if t.IsConst() && b.IsConst() {
+			return ex.tc.StrConst(strconv.FormatUint(t.u, int(b.u)))
+		}
+		return ex.tc.UF("strconv_FormatUint", StrSort, t, b)
+	}
+	m["strconv.ParseInt"] = func(ex *Exec, c *frame, fn *ssa.Function, a []value) value {
+		s := ex.constStr(a[0], "ParseInt input")
+		v, err := strconv.ParseInt(s, int(ex.concreteInt(a[1], "base")), int(ex.concreteInt(a[2], "bits")))
+		if err != nil {
+			return tuple{ex.tc.Int64(v), ex.newErrorValue(err.Error())}
+		}
+		return tuple{ex.tc.Int64(v), iface{}}
+	}
+	m["strconv.Atoi"] = func(ex *Exec, c *frame, fn *ssa.Function, a []value) value {
+		s := ex.constStr(a[0], "Atoi input")
+		v, err := strconv.Atoi(s)
+		if err != nil {
+			return tuple{ex.tc.Int64(int64(v)), ex.newErrorValue(err.Error())}
+		}
+		return tuple{ex.tc.Int64(int64(v)), iface{}}
+	}
+	m["strings.Split"] = func(ex *Exec, c *frame, fn *ssa.Function, a []value) value {
+		s, sep := ex.constStr(a[0], "Split input"), ex.constStr(a[1], "Split separator")
+		parts := strings.Split(s, sep)
+		out := make([]value, len(parts))
+		for i, p := range parts {
+			out[i] = ex.tc.StrConst(p)
+		}
+		return out
+	}
+}
+
+// ---------- native models for http cookies (net/http package state is not initialised) ----------
+
+func (ex *Exec) headerValues(h *mapV, key string) []string {
+	if h == nil {
+		return nil
+	}
+	for i, k := range h.keys {
+		if kt, ok := k.(*Term); ok && kt.IsConst() && kt.s == key {
+			var out []string
+			for _, v := range h.vals[i].([]value) {
+				out = append(out, ex.constStr(v, "header value"))
+			}
+			return out
+		}
+	}
+	return nil
+}
+
+func (ex *Exec) headerSetValues(h *mapV, key string, vals []string) {
+	vs := make([]value, len(vals))
+	for i, s := range vals {
+		vs[i] = ex.tc.StrConst(s)
+	}
+	ex.noteMapAccess(h, true)
+	for i, k := range h.keys {
+		if kt, ok := k.(*Term); ok && kt.IsConst() && kt.s == key {
+			h.vals[i] = vs
+			return
+		}
+	}
+	h.keys = append(h.keys, ex.tc.StrConst(key))
+	h.vals = append(h.vals, vs)
+}
+
+func (ex *Exec) cookieToGo(p *value, t types.Type) *http.Cookie {
+	s := (*p).(structure)
+	st := t.Underlying().(*types.Struct)
+	c := &http.Cookie{Name: ex.strField(s, st, "Name"), Value: ex.strField(s, st, "Value"), Path: ex.strField(s, st, "Path"), Domain: ex.strField(s, st, "Domain"),
+		Secure: ex.boolField(s, st, "Secure"), HttpOnly: ex.boolField(s, st, "HttpOnly")}
+	if i := ex.fieldIndex(st, "MaxAge"); i >= 0 {
+		c.MaxAge = int(ex.concreteInt(s[i], "MaxAge"))
+	}
+	if i := ex.fieldIndex(st, "SameSite"); i >= 0 {
+		c.SameSite = http.SameSite(ex.concreteInt(s[i], "SameSite"))
+	}
+	if i := ex.fieldIndex(st, "Expires"); i >= 0 {
+		if tv, ok := s[i].(timeV); ok && !(tv.q.IsConst() && tv.q.isZero()) {
+			panic(unsupported{"cookie with Expires"})
+		}
+	}
+	return c
+}
+
+func init() {
+	m := models
+	m["net/http.SetCookie"] = func(ex *Exec, c *frame, fn *ssa.Function, a []value) value {
+		ct := fn.Signature.Params().At(1).Type().(*types.Pointer).Elem()
+		ck := ex.cookieToGo(a[1].(*value), ct)
+		if v := ck.String(); v != "" {
+			w := a[0].(iface)
+			h := ex.callMethod(c, w, "Header").(*mapV)
+			ex.headerSetValues(h, "Set-Cookie", append(ex.headerValues(h, "Set-Cookie"), v))
+		}
+		return nil
+	}
+	reqHeader := func(ex *Exec, p *value, fn *ssa.Function) *mapV {
+		st := fn.Signature.Recv().Type().(*types.Pointer).Elem().Underlying().(*types.Struct)
+		s := (*p).(structure)
+		h, _ := s[ex.fieldIndex(st, "Header")].(*mapV)
+		return h
+	}
+	m["(*net/http.Request).AddCookie"] = func(ex *Exec, c *frame, fn *ssa.Function, a []value) value {
+		ct := fn.Signature.Params().At(0).Type().(*types.Pointer).Elem()
+		ck := ex.cookieToGo(a[1].(*value), ct)
+		r := &http.Request{Header: http.Header{}}
+		h := reqHeader(ex, a[0].(*value), fn)
+		if h == nil {
+			ex.runtimePanic("assignment to entry in nil map")
+		}
+		if old := ex.headerValues(h, "Cookie"); len(old) > 0 {
+			r.Header["Cookie"] = old
+		}
+		r.AddCookie(ck)
+		ex.headerSetValues(h, "Cookie", r.Header["Cookie"])
+		return nil
+	}
+	m["(*net/http.Request).Cookie"] = func(ex *Exec, c *frame, fn *ssa.Function, a []value) value {
+		name := ex.constStr(a[1], "cookie name")
+		r := &http.Request{Header: http.Header{}}
+		if h := reqHeader(ex, a[0].(*value), fn); h != nil {
+			if vs := ex.headerValues(h, "Cookie"); len(vs) > 0 {
+				r.Header["Cookie"] = vs
+			}
+		}
+		ck, err := r.Cookie(name)
+		pt := fn.Signature.Results().At(0).Type().(*types.Pointer)
+		if err != nil {
+			// http.ErrNoCookie
+			if hp := ex.prog.ImportedPackage("net/http"); hp != nil {
+				if g, ok := hp.Members["ErrNoCookie"].(*ssa.Global); ok {
+					return tuple{(*value)(nil), *ex.globalAddr(g)}
+				}
+			}
+			return tuple{(*value)(nil), ex.newErrorValue(err.Error())}
+		}
+		st := pt.Elem().Underlying().(*types.Struct)
+		s := ex.zero(pt.Elem()).(structure)
+		s[ex.fieldIndex(st, "Name")] = ex.tc.StrConst(ck.Name)
+		s[ex.fieldIndex(st, "Value")] = ex.tc.StrConst(ck.Value)
+		cell := new(value)
+		*cell = s
+		return tuple{cell, iface{}}
 	}
 }
